@@ -78,7 +78,7 @@ func (C19) Generate(r *core.RNG, tier string, idx uint64) interface{} {
 		case 0, 1:
 			cl.Answer = "wrong"
 		case 2:
-			cl.Answer = "error"
+			cl.Answer = []string{"error", "error-with-value"}[r.Intn(2)]
 		default:
 			cl.Answer = "right"
 		}
@@ -199,6 +199,9 @@ func (e C19) Execute(plan interface{}, c *core.Ctx) *core.Verdict {
 			return []byte(pass), nil
 		case "wrong":
 			return []byte("not the passphrase"), nil
+		case "error-with-value":
+			// the callback fails but still hands back what was typed: it must count as a failure
+			return []byte(pass), errors.New("sim: prompt interrupted")
 		}
 		return nil, errors.New("sim: user aborted the prompt")
 	})
@@ -402,7 +405,7 @@ func (e C19) Execute(plan interface{}, c *core.Ctx) *core.Verdict {
 			case cl.Answer == "wrong":
 				c.Stats.Inc("fault.passphrase_wrong")
 				sawWrong = true
-			case cl.Answer == "error":
+			case cl.Answer == "error" || cl.Answer == "error-with-value":
 				c.Stats.Inc("fault.passphrase_error")
 			case p.Holds == "B":
 				c.Stats.Inc("fault.mismatched_private_key")
